@@ -47,6 +47,14 @@ def run(ctx):
                 si_event(list(data), p, 1, sc)
                 meta.append(("si", L, p))
                 ctx.case(("si", L, len(set(data)) < L, p, sc), {"shortest_int": [list(data), p, sc]} if L == 5 else None)
+    # lengths and integer percentages where p*len/100 is an exact integer (the floor must not lose one)
+    for n in (20, 50, 90, 100, 200, 300):
+        for p in range(1, 100):
+            if (n * p) % 100 == 0 and (n * p) // 100 >= 1 and (p % 7 == 1 or n in (100, 50) or T):
+                rs = np.random.RandomState(n + p)
+                si_event([int(v) for v in np.round(rs.randn(n) * 50)], p, 1, 1.0)
+                meta.append(("si-exact-lag", n, p))
+                ctx.case(("si-exact-lag", n, p % 10))
     # long records
     for k in range(60 if T else 20):
         n = rnd.choice([10, 101, 1000, 4097, 10001, 2 ** 15 + 3] + ([2 ** 17] if T else []))
